@@ -6,6 +6,7 @@ import RichModel.Model.FramesTree
 import RichModel.Model.FramesColumns
 import RichModel.Gen.CellWidths
 import RichModel.Drv.Proto
+import RichModel.Drv.C08Bars
 /-
 Driver handlers for property C08 (framing renderables).
 
@@ -505,6 +506,6 @@ def handlers : List (String × (List String → String)) := [
         toString l.columnCount ++ "|" ++ ";".intercalate (l.rows.map (fun r =>
           ",".intercalate (r.map (fun x => match x with | some i => toString i | none => "-"))))
     | _ => "bad-args")
-]
+] ++ RichModel.Drv.C08Bars.barsHandlers   -- styled Bar / ProgressBar (deepening round 4)
 
 end RichModel.Drv.C08
